@@ -95,8 +95,10 @@ def load(R):
                         # deduplication: equal bytes share one stored object -- nothing is written when the content key exists
                         "implies(not key_override and old(result.key in data_source.latest), data_source.writes == old(data_source.writes) and result.version == old(data_source.latest[result.key]))",
                         "implies(not (not key_override and old(result.key in data_source.latest)), data_source.writes == old(data_source.writes) + 1)"],
-               raises={"OSError+": ["J(data_source)", "OLD_BLOBS_KEPT(data_source)"]},
-               modifies=["data_source.blobs", "data_source.latest", "data_source.writes"])
+               raises={"OSError+": ["J(data_source)", "OLD_BLOBS_KEPT(data_source)", "[C08] LINKS_OK(data_source)"]},
+               modifies=["data_source.blobs", "data_source.latest", "data_source.writes"],
+               # C08: a crash between two data-source calls leaves the integrity invariant, the links and every old version intact
+               labels={"step_invariant": ["[C08] J(data_source)", "[C08] LINKS_OK(data_source)", "[C08] OLD_BLOBS_KEPT(data_source)"]})
 
     R.contract("storage_base:Codec.NullStrategy.store", prop="C07", types={"self": TEnt("NullStrategy"), "data_source": DS, "key_override": TOpt(TStr), "obj": TObj()}, returns=TOpt(VKey),
                requires=["J(data_source)", "implies(key_override is not None, not key_override.startswith('c/'))"],
